@@ -86,10 +86,13 @@ PROPS = {
                 "value) and removals of facts in between, often the same query before and after a change, incl. paired changes (two fields swap their values or both get the same new value); rule sets, strategies and depths as in C09. Observed per query: provable, facts before and after. "
                 "non-trivial = at least one provable query",
         "level_text": "Theorem (Coq): with the memo table of BackwardEngine (keyed by the query and the canonical encoding of the facts, only failures answered from it), whatever was asked before on whatever facts, the "
-                "verdict of a query is the verdict a fresh search gives on the facts passed in, and the table stays sound (invariant by induction over the history); a fresh engine's table is sound. The engine model "
+                "verdict of a query is the verdict a fresh search gives on the facts passed in, and the table stays sound (invariant by induction over the history); a fresh engine's table is sound. "
+                "The premise of that theorem is discharged (Proofs/BackwardEquivProofs.v): the search reads a store only through its lookup function (same lookups => same verdict, by simulation of the whole "
+                "mutual search), and for stores with one entry per key holding integers / strings / booleans / null the canonical sorted encoding determines the lookup function; hence C11_history_is_fresh: "
+                "along ANY history of queries, each on its own store, every verdict is the fresh verdict, with no hypothesis beyond the shape of the stores. The engine model "
                 "with its table is compared with the code query by query on deterministic rule sets, and the monitor compares every observed verdict with a fresh model search on the observed facts.",
-        "level_note": "The theorem's premise - the search verdict depends on the facts only through their sorted encoding, from which the key is built - is stated, not proved (it needs order-insensitivity of the assoc-list store "
-                "under the search). RETE-attached queries (proof graph, TMS retractions) are outside the model. Trusted: as C09 plus the memo key of repair dfacdc7. Axioms: none.",
+        "level_note": "The premise-free theorem covers stores of integers, strings, booleans and null (what the harness generates); for floats / arrays / objects the general theorem keeps the premise that the "
+                "sorted encoding determines the verdict. RETE-attached queries (proof graph, TMS retractions) are outside the model. Trusted: as C09 plus the memo key of repair dfacdc7. Axioms: none.",
         "trusted_base": [],
         "assumptions": ["no RETE engine attached to the queries"],
     },
@@ -228,10 +231,12 @@ PROPS = {
                 "(*, prefix, suffix, exact, ?ALL), Specific exports, all import types, re-exports; non-trivial = at least one accepted import",
         "level_text": "Proved for every operation sequence: a refused operation changes nothing; self-imports are refused; every declared import names an existing module "
                 "(invariant through create/delete/export/add-rule/import); hence visibility queries on existing modules never fail, and is_rule_visible equals the declarative "
-                "'owns or imports with matching pattern from an exporting module'. Acyclicity of the declared relation, acceptance/refusal of every import against declared reachability, "
-                "and get_visible_rules are the Coq-defined executable specification Module.ok evaluated on the real ModuleManager after every op.",
+                "'owns or imports with matching pattern from an exporting module'. Acyclicity (Proofs/ModuleAcyclicProofs.v): after every operation sequence no module reaches itself through declared "
+                "imports; the separate import_graph is exactly the set of declared imports in every reachable state; the fuelled breadth-first search of detect_cycle is a correct reachability test on "
+                "any graph (the fuel S(graph_size) provably never runs out: a queue-plus-unvisited measure), so an import is refused exactly when a module is missing or it would close a cycle. "
+                "get_visible_rules is covered by the Coq-defined executable specification Module.ok evaluated on the real ModuleManager after every op (it also re-checks acyclicity and every acceptance/refusal).",
         "level_note": "Trusted: Coq kernel; model of module.rs after the delete_module fix (rules only; templates/salience/focus not modelled); harness; extraction. 'exports' follows the code's "
-                "definition (own rule matching the export list, or any name matching a re-export pattern). Acyclicity (BFS correctness) is checked by the monitor, not yet a theorem. "
+                "definition (own rule matching the export list, or any name matching a re-export pattern). get_visible_rules is checked by the monitor only. "
                 "Known finding C18-listing-misses-reexports (monitor class 2). Axioms: none.",
         "trusted_base": [],
         "assumptions": ["module and rule names are arbitrary strings; patterns as implemented by pattern_matches"],
@@ -248,7 +253,7 @@ PROPS = {
                 "Aggregates (count/sum/average/min/max as IEEE-754 binary64 folds over exactly the retained events, bit-for-bit, via the axiom-free SpecFloat) and exactly-once placement are the "
                 "Coq-defined monitor Window.ok evaluated on the implementation's observations after every event. StreamAlphaNode (Model/StreamAlpha.v, after repairs 8577f39 / d22a712; Session windows not modelled): compared per event with the code under the injected clock, and the Coq monitor checks on the observations: accepted iff inside the window of the clock, the buffer is a subsequence of the accepted events, holds nothing outside the window and (cap not reached) misses nothing inside it.",
         "level_note": "Trusted: Coq kernel; model of window.rs (after the record fix) and of WindowedStream::new (tumbling); Base/Float.v bit-level encoding of binary64 and Coq.Floats.SpecFloat as the "
-                "meaning of f64 + and /; harness; extraction. StreamAlphaNode (wall-clock windows) is not covered yet; NaN payloads are canonicalised; f64::min/max on zeros of opposite sign not exercised. Axioms: none.",
+                "meaning of f64 + and /; harness; extraction. StreamAlphaNode Session windows are not modelled; NaN payloads are canonicalised; f64::min/max on zeros of opposite sign not exercised. Axioms: none.",
         "trusted_base": ["Coq.Floats.SpecFloat (prec 53, emax 1024) as the semantics of Rust f64 addition/division/comparison; Iterator::sum::<f64>() folds from -0.0"],
         "assumptions": ["durations >= 1 ms; retention caps >= 1; timestamps below 2^62 so start+duration and now+1 do not overflow u64"],
     },
